@@ -90,3 +90,30 @@ pub fn store_event<F: FnOnce() -> StoreEvent>(ev: F) {
         cb(&ev());
     }
 }
+
+/// Named synchronisation points at the step boundaries of the flush / compaction / ingestion /
+/// snapshot protocol. The callback runs in the thread that reaches the point (it may block there).
+/// Labels are `"<function>:<step>"`, or `"<function>:<step>@<table>"` for table-level steps.
+pub type SyncCallback = Arc<dyn Fn(&str) + Send + Sync>;
+
+static SYNC_CALLBACK: std::sync::Mutex<Option<SyncCallback>> = std::sync::Mutex::new(None);
+
+pub fn set_sync_point(cb: Option<SyncCallback>) {
+    *SYNC_CALLBACK.lock().unwrap_or_else(|e| e.into_inner()) = cb;
+}
+
+/// With no callback registered this is one uncontended lock and nothing else.
+pub fn sync_point(label: &str) {
+    let cb = SYNC_CALLBACK.lock().unwrap_or_else(|e| e.into_inner()).clone();
+    if let Some(cb) = cb {
+        cb(label);
+    }
+}
+
+/// `sync_point("<label>@<table>")`; the string is only built when a callback is registered.
+pub fn sync_point_at(label: &str, table: &str) {
+    let cb = SYNC_CALLBACK.lock().unwrap_or_else(|e| e.into_inner()).clone();
+    if let Some(cb) = cb {
+        cb(&format!("{}@{}", label, table));
+    }
+}
